@@ -33,8 +33,8 @@ import (
 )
 
 const (
-	nKeys   = 8
-	nVals   = 8
+	nKeys   = 16
+	nVals   = 9
 	unknown = 99 // a key / value outside the universe
 	failed  = 98 // the call returned an error
 )
@@ -42,7 +42,7 @@ const (
 var (
 	keyBytes [nKeys + 1][]byte
 	valBytes [nVals + 1][]byte
-	valLen   = [nVals + 1]int{0, 1, 1, 28, 29, 31, 32, 40, 56}
+	valLen   = [nVals + 1]int{0, 1, 1, 28, 29, 31, 32, 40, 56, 33}
 )
 
 func initUniverse() {
@@ -55,6 +55,17 @@ func initUniverse() {
 	keyBytes[6] = append(append([]byte{0xa0}, rep(30, 0x11)...), 0x01)
 	keyBytes[7] = append(append([]byte{0xa0}, rep(30, 0x11)...), 0x02)
 	keyBytes[8] = append([]byte{0xa1}, rep(31, 0x22)...)
+	// long keys: nodes deeper than 255 nibbles
+	p128 := rep(128, 0x5a)
+	cat := func(a []byte, b ...byte) []byte { return append(append([]byte{}, a...), b...) }
+	keyBytes[9] = cat(p128, 0x01)
+	keyBytes[10] = cat(p128, 0x02)
+	keyBytes[11] = cat(p128, 0x13)
+	keyBytes[12] = cat(p128)
+	keyBytes[13] = cat(p128, rep(128, 0x3c)...)
+	keyBytes[14] = cat(p128, rep(127, 0x3c)...)
+	keyBytes[15] = rep(127, 0x5a)
+	keyBytes[16] = cat([]byte{0x5a}, rep(63, 0x07)...)
 	for v := 1; v <= nVals; v++ {
 		b := make([]byte, valLen[v])
 		for i := range b {
@@ -220,19 +231,44 @@ func (s *subject) apply(c call) (r result) {
 	case "L":
 		s.t.SetCacheLimit(uint16(c.V))
 	case "P": // NodeDatabase.Cap: flush the oldest cached nodes to disk and drop them from memory
-		size, _ := s.nodedb.Size()
-		limit := common.StorageSize(0)
-		switch c.V {
-		case 1:
-			limit = size / 2
-		case 2:
-			limit = size * 3 / 4
-		}
-		r.err = s.nodedb.Cap(limit) != nil
+		// V = 0: limit 0 (everything); V = m > 0: the limit that makes Cap flush exactly the m oldest
+		// nodes of the flush-list (sizes and order read by reflection)
+		r.err = s.nodedb.Cap(limitFlushing(s.nodedb, c.V)) != nil
 	default:
 		vutil.Fatalf("unknown op %q", c.Op)
 	}
 	return
+}
+
+// limitFlushing computes the Cap limit under which exactly the m oldest cached nodes are flushed
+// (Cap flushes while size > limit, each node reducing size by 3*HashLength + its blob size).
+func limitFlushing(ndb *trie.NodeDatabase, m int) common.StorageSize {
+	if m <= 0 {
+		return 0
+	}
+	size, _ := ndb.Size()
+	v := reflect.ValueOf(ndb).Elem()
+	nodes := v.FieldByName("nodes")
+	cur := v.FieldByName("oldest")
+	toHash := func(a reflect.Value) (h common.Hash) {
+		for i := 0; i < len(h); i++ {
+			h[i] = byte(a.Index(i).Uint())
+		}
+		return
+	}
+	h := toHash(cur)
+	for i := 0; i < m && h != (common.Hash{}); i++ {
+		e := nodes.MapIndex(reflect.ValueOf(h))
+		if !e.IsValid() || e.IsNil() {
+			break
+		}
+		size -= common.StorageSize(3*common.HashLength + int(e.Elem().FieldByName("size").Uint()))
+		h = toHash(e.Elem().FieldByName("flushNext"))
+	}
+	if size < 0 {
+		size = 0
+	}
+	return size
 }
 
 func replay(ops []call) *subject {
@@ -334,7 +370,7 @@ func project(s *subject) map[string]interface{} {
 	p := map[string]interface{}{"panic": "", "memOK": false, "mem": specNode(nil), "hash": "none", "gets": make([]int, nKeys),
 		"iter": []interface{}{}, "iterErr": true, "nit": []interface{}{}, "nitErr": true, "commit": "none", "commitErr": true,
 		"storedOK": false, "tree": specNode(nil), "hashed": []interface{}{}, "ref": "undecodable", "fresh": "none",
-		"vsame": []interface{}{}, "vsameIter": []interface{}{}, "vfresh": []interface{}{}}
+		"vsame": []interface{}{}, "vsameIter": []interface{}{}, "vfresh": []interface{}{}, "vroot": []bool{}}
 	get := func(h []byte) ([]byte, bool) {
 		b, err := s.nodedb.Node(common.BytesToHash(h))
 		return b, err == nil && len(b) > 0
@@ -385,7 +421,12 @@ func project(s *subject) map[string]interface{} {
 		nit := make([]interface{}, 0)
 		ni := s.t.NodeIterator(nil)
 		for ni.Next(true) {
-			nit = append(nit, []interface{}{ints(ni.Path()), ni.Leaf(), ni.Hash() != (common.Hash{})})
+			// <<length of the path, its last nibble (99: empty path), leaf, stored under its own hash>>
+			path, last := ni.Path(), 99
+			if len(path) > 0 {
+				last = int(path[len(path)-1])
+			}
+			nit = append(nit, []interface{}{len(path), last, ni.Leaf(), ni.Hash() != (common.Hash{})})
 		}
 		p["nit"] = nit
 		p["nitErr"] = ni.Error() != nil
@@ -413,7 +454,7 @@ func project(s *subject) map[string]interface{} {
 	})
 	// 7. every version the history committed, re-opened on the same NodeDatabase and on a fresh
 	//    NodeDatabase over the same disk store: lookups of all keys, iteration
-	vsame, vsameIter, vfresh := []interface{}{}, []interface{}{}, []interface{}{}
+	vsame, vsameIter, vfresh, vroot := []interface{}{}, []interface{}{}, []interface{}{}, []bool{}
 	readVersion := func(root common.Hash, ndb *trie.NodeDatabase) ([]int, []interface{}) {
 		gets := make([]int, nKeys)
 		for i := range gets {
@@ -450,8 +491,10 @@ func project(s *subject) map[string]interface{} {
 		vsame, vsameIter = append(vsame, g), append(vsameIter, it)
 		g2, _ := readVersion(root, trie.NewDatabase(s.disk))
 		vfresh = append(vfresh, g2)
+		onDisk, _ := s.disk.Has(root[:]) // the version's root node is in the disk store (whatever put it there)
+		vroot = append(vroot, onDisk)
 	}
-	p["vsame"], p["vsameIter"], p["vfresh"] = vsame, vsameIter, vfresh
+	p["vsame"], p["vsameIter"], p["vfresh"], p["vroot"] = vsame, vsameIter, vfresh, vroot
 	// 8. the real root of a fresh real trie holding the observed pairs, sorted inserts
 	stage(p, "fresh", func() {
 		f := newSubject()
